@@ -171,7 +171,7 @@ fn sender_cases(run: &mut Run, rng: &mut Rng, thorough: bool) {
                     let newc = no - s.outbound_queue.len();
                     // oracle: with the window closed nothing new leaves
                     let fl_after_rex: usize = fl + q.iter().filter(|r| r.needs_retransmit && !r.acked && !r.in_flight).map(|r| r.len).sum::<usize>();   // (a gap-acked record is not retransmitted: 5ac86b5)
-                    if (rwnd as usize) <= fl_after_rex && newc > 0 { run.fail("window:new-data-with-no-available-window", &format!("tx rwnd={rwnd} flight={fl_after_rex}"), &format!("{newc} new chunks")); }
+                    if (rwnd as usize) <= fl_after_rex && newc > 0 && !(rwnd == 0 && fl == 0 && newc == 1) /* one chunk is the zero-window probe: 31af4d4 */ { run.fail("window:new-data-with-no-available-window", &format!("tx rwnd={rwnd} flight={fl_after_rex}"), &format!("{newc} new chunks")); }
                     if newc > 0 { run.count("tx_new_data"); }
                     if s.outbound_queue.len() > 0 { run.count("tx_window_limited"); }
                     let input = format!("{cwnd} {fl} {rwnd} {next} {} {mb} {} / {}", sack as u8, q_text(&q),
@@ -304,6 +304,7 @@ pub fn txw_lines(side: usize, c: &Case, o: &Outcome) -> (String, String, Vec<(St
                             max_rwnd = max_rwnd.max(arw);
                             let newer = match best.0 { Some(old) => !tsn_gt(old, cum), None => true };
                             if newer {
+                                if best.0 != Some(cum) { t3_count = 0; }   // the T3 excuse counts expiries since the last SACK that moved the cumulative TSN
                                 // at an unchanged cumulative TSN the receiver's window can only have shrunk
                                 best = (Some(cum), if best.0 == Some(cum) { best.1.min(arw) } else { arw });
                                 unacked.retain(|e| tsn_gt(e.0, cum));
@@ -434,6 +435,20 @@ fn cases(args: &Args, rng: &mut Rng) -> Vec<Case> {
         let mut c = c13_case(32_768, 4, 65_536, 80, &[3000, 200, 5000], faults_parse(f), None);
         for side in 0..2 { c.chans[side][0].max_retransmits = Some(mr); }
         v.push(c);
+    }
+    // the SCTP *server* as the bulk sender: its sender state (next_tsn, peer_rwnd, peer_cumulative_ack, advanced_peer_ack_tsn)
+    // is seeded by handle_init / handle_cookie_echo, not by the client-side handlers. Every third case so far, mirrored
+    // (roles of A and B exchanged; B then carries A's initial TSN, i.e. upper-half / wrapping values too) …
+    let mirrored: Vec<Case> = v.iter().enumerate().filter(|(i, _)| args.tier_thorough || i % 3 == 0).map(|(_, c)| mirror(c)).collect();
+    v.extend(mirrored);
+    // … and a late / duplicated COOKIE-ECHO reaching the server while it is in the middle of a bulk transfer into a small window
+    for f in ["A.COOKIEECHO.1.late3+B.DATA.4.delay9", "A.COOKIEECHO.1.late5+B.DATA.3.delay9", "A.COOKIEECHO.1.late8+B.TSN.2.dropn2", "A.INIT.1.dup+B.DATA.2.delay9"] {
+        for (tb, rw) in [(Some(5000u32), 4096usize), (Some(0xFFFF_FFF0), 8192)] {
+            let mut c = mirror(&c13_case(rw, 16, 256 * 1024, 200, &[24_000], vec![], None));
+            c.faults = faults_parse(f);
+            c.cfg[0].seed_tsn = Some(1000); c.cfg[1].seed_tsn = tb;
+            v.push(c);
+        }
     }
     let nrand = if args.tier_thorough { 200 } else { 10 };
     for _ in 0..nrand {
